@@ -253,7 +253,14 @@ def s_to_numpy(I, recv, args, kwargs):
 
 @method("series", "copy")
 def s_copy(I, recv, args, kwargs):
-    return SSeries(recv.index, recv.values, recv.name)
+    out = SSeries(recv.index, recv.values, recv.name)
+    deep = arg(args, kwargs, 0, "deep", True)
+    if deep is False:
+        # shallow copy: a new Series object over the SAME data buffer -- a write through it is a write to the original
+        out.shares = getattr(recv, "shares", recv)
+    elif deep is not True:
+        raise Undecided("Series.copy(deep=<symbolic>)")
+    return out
 
 
 @method("series", "rename")
@@ -323,7 +330,13 @@ def f_to_numpy(I, recv, args, kwargs):
 
 @method("frame", "copy")
 def f_copy(I, recv, args, kwargs):
-    return SFrame(recv.index, recv.values, recv.columns)
+    out = SFrame(recv.index, recv.values, recv.columns)
+    deep = arg(args, kwargs, 0, "deep", True)
+    if deep is False:
+        out.shares = getattr(recv, "shares", recv)
+    elif deep is not True:
+        raise Undecided("DataFrame.copy(deep=<symbolic>)")
+    return out
 
 
 # ----------------------------------------------------------------------------- result tables (evaluate / tuning)
@@ -492,3 +505,68 @@ def _series_argmin(I, recv, args, kwargs):
 
 _M2[("series", "rank")] = _series_rank
 _M2[("series", "argmin")] = _series_argmin
+
+
+@method("series", "apply")
+def s_apply(I, recv, args, kwargs):
+    """Series.apply(f) for a pure scalar function: new series, same index, value i = f(value i)"""
+    f = args[0]
+    if len(args) != 1 or kwargs:
+        raise Undecided("Series.apply with extra arguments")
+    vals = recv.values
+
+    def fn(i):
+        I.ctx.in_quant += 1
+        I.ctx.quant_guards.append(z3.And(to_z3(i) >= 0, to_z3(i) < to_z3(vals.len)))
+        try:
+            return I.call(f, [vals.fn(i)], {})
+        finally:
+            I.ctx.quant_guards.pop()
+            I.ctx.in_quant -= 1
+    probe = fn(I.ctx.fresh_int("apply_i"))
+    dt = "bool" if is_boollike(probe) else ("real" if is_reallike(probe) or probe is NAN else ("int" if is_intlike(probe) else "obj"))
+    if dt == "obj":
+        raise Undecided("Series.apply producing objects")
+    USED.add("Series.apply(f): element-wise, f pure")
+    return SSeries(recv.index, SArr((vals.len,), fn, dt, "ndarray"), recv.name)
+
+
+# ----------------------------------------------------------------------------- value-producing Series methods whose VALUES are not modelled
+# (fresh result object, same index, uninterpreted values): enough for frame / index statements, says nothing about values
+
+def _fresh_values_like(I, recv, what):
+    f = I.ctx.fresh_fun(what, z3.IntSort(), z3.RealSort())
+    USED.add(f"Series.{what}: returns a NEW series with the same index; values uninterpreted (not modelled)")
+    return SSeries(recv.index, SArr((recv.values.len,), lambda i: f(to_z3(i)), "real", "ndarray"), recv.name)
+
+
+def _mk_fresh(what):
+    def m(I, recv, args, kwargs):
+        ip = kwargs.get("inplace")
+        if ip is True:
+            # in-place variant: the receiver (and whatever shares its buffer) is overwritten, nothing is returned
+            for o in (recv, getattr(recv, "shares", None)):
+                if o is not None and I.ctx.frozen and id(o) in I.ctx.frozen:
+                    I.ctx.mutated.append((o, f"{what}(inplace=True)"))
+            recv.values = _fresh_values_like(I, recv, what).values
+            return None
+        if ip not in (None, False):
+            raise Undecided(f"Series.{what}(inplace=<symbolic>)")
+        return _fresh_values_like(I, recv, what)
+    return m
+
+
+for _w in ("fillna", "replace", "interpolate", "ffill", "bfill"):
+    _M2[("series", _w)] = _mk_fresh(_w)
+
+
+def _s_scalar_agg(what):
+    def m(I, recv, args, kwargs):
+        USED.add(f"Series.{what}(): uninterpreted aggregate of the values")
+        return I.ctx.fresh_real(what)
+    return m
+
+
+for _w in ("mean", "median"):
+    if ("series", _w) not in _M2:
+        _M2[("series", _w)] = _s_scalar_agg(_w)
